@@ -9,7 +9,7 @@ META = {
     "technique": "Coq proof (expansion of a structured loop program = its hand expansion, by induction on nesting depth over a line-based model) "
                  "+ model/impl differential on generated and malformed loop sources + AST oracle (loop program vs hand-expanded program)",
     "design_ref": "DESIGN.md §7 C42",
-    "level_text": "proof",
+    "level_text": "Coq theorem: expansion of every well-formed loop program equals its hand-written copies, about an executable model tied to expand.rs by a differential run on every check",
     "level_note": "Proved for the model Text/Expand.v: for every well-formed declaration program (Text/ExpandSpec.v wf: statements whose text does not "
                   "start with white space, '{' or 'f', continuation lines indented by spaces or empty, loop variables without white space or '{', "
                   "literal ranges a..b within i64 with at most 10000 values, nesting depth <= 9, weight <= 100000 lines, indentation unit >= 1 space) expand returns exactly "
